@@ -5,5 +5,6 @@ CONSTANTS
   ForwardHalfClose = TRUE
   JoinBeforeError = FALSE
   NeedFirstMessage = FALSE
+  FirstSendEOFFatal = FALSE
 INVARIANTS TranscriptEquivalence BackendSawPrefix BackendSawAll NoPumpOutlivesHandler
 PROPERTY Finishes
